@@ -1,4 +1,4 @@
-(* C07 proofs, part 8 (s07f): ONE request, any state, any fault: a user whose effective mode
+(* C07 proofs, part 8 (s07f): ONE request of any kind, any state, any fault: a user whose effective mode
    (want & given of the cache entry) had J before the request and lacks it afterwards (or whose
    entry is gone) has no attached session afterwards, of any kind. *)
 From Coq Require Import ZArith NArith List Bool Lia.
@@ -130,23 +130,117 @@ Proof.
       rewrite effj_aset_other_c07f in B by exact NE. congruence.
 Qed.
 
+(* ---------- {sub}: what the reply of thisUserSub says about the cache ---------- *)
+Lemma tus_finish_ch_c07f u w1 g1 ow og nb s3 c3 n3 ch :
+  snd (tus_finish u w1 g1 ow og nb s3 c3 n3) = SubOk ch ->
+  match ch with Some (w, g) => w = w1 /\ g = g1 | None => w1 = ow /\ g1 = og end.
+Proof.
+  assert (forall ch0, ch0 = (if nb || negb ((w1 =? ow)%N && (g1 =? og)%N) then Some (w1, g1) else None) ->
+          match ch0 with Some (w, g) => w = w1 /\ g = g1 | None => w1 = ow /\ g1 = og end) as K.
+  { intros ch0 ->. destruct (nb || negb ((w1 =? ow)%N && (g1 =? og)%N)) eqn:EC; [split; reflexivity|].
+    apply orb_false_iff in EC. destruct EC as [_ EC]. apply negb_false_iff in EC. apply andb_prop in EC.
+    destruct EC as [E1 E2]. apply N.eqb_eq in E1, E2. auto. }
+  unfold tus_finish. destruct (negb (is_joiner w1)).
+  - destruct (evict_user _ u false 0) as [c5 o5]. cbn [snd]. intros H. inv H. apply K. reflexivity.
+  - destruct (negb (is_joiner g1)); cbn [snd]; [discriminate|]. intros H. inv H. apply K. reflexivity.
+Qed.
+
+Lemma tus_ch_c07f f s c n u want nb ch :
+  snd (tus f s c n u want nb) = SubOk ch ->
+  match ch with
+  | Some (w, g) => cwant (h_ca (fst (tus f s c n u want nb))) u = Some w /\ cgiven (h_ca (fst (tus f s c n u want nb))) u = Some g
+  | None => effj_c07f (h_ca (fst (tus f s c n u want nb))) u = effj_c07f c u
+  end.
+Proof.
+  unfold tus. destruct (tus_mw want) as [mw okw]. destruct (negb okw); [discriminate|].
+  destruct (alookup u (c_users c)) as [p0|] eqn:Eu.
+  - unfold tus_exist. destruct (tus_chk _ _ _ _ _) as [[[mw1 g1] oc]|]; [|discriminate].
+    destruct (if negb _ then call f n else (true, n)) as [ok1 n1]. destruct (negb ok1); [discriminate|].
+    set (w1 := tus_w1 c u mw1 g1 (p_want p0)).
+    assert (forall s3 c3 n3, snd (tus_finish u w1 g1 (p_want p0) (p_given p0) nb s3 c3 n3) = SubOk ch ->
+      match ch with
+      | Some (w, g) => cwant (h_ca (fst (tus_finish u w1 g1 (p_want p0) (p_given p0) nb s3 c3 n3))) u = Some w /\
+                       cgiven (h_ca (fst (tus_finish u w1 g1 (p_want p0) (p_given p0) nb s3 c3 n3))) u = Some g
+      | None => effj_c07f (h_ca (fst (tus_finish u w1 g1 (p_want p0) (p_given p0) nb s3 c3 n3))) u = effj_c07f c u
+      end) as FIN.
+    { intros s3 c3 n3 HS. pose proof (tus_finish_ch_c07f _ _ _ _ _ _ _ _ _ _ HS) as CH.
+      destruct (tus_finish_res u w1 g1 (p_want p0) (p_given p0) nb s3 c3 n3) as [_ [RG [RW _]]]. cbv zeta in RG, RW.
+      specialize (RG u). specialize (RW u). rewrite N.eqb_refl in RG, RW.
+      destruct ch as [[w g]|].
+      - destruct CH as [-> ->]. split; assumption.
+      - destruct CH as [E1 E2]. unfold effj_c07f. rewrite RG, RW. unfold cwant, cgiven. rewrite Eu. cbn. rewrite E1, E2. reflexivity. }
+    destruct oc; [|apply FIN].
+    destruct (call f n1) as [ok2 n2]. destruct (negb ok2); [discriminate|].
+    destruct (call f n2) as [ok3 n3]. destruct (negb ok3); [discriminate|]. apply FIN.
+  - assert (effj_c07f c u = false) as NU by (unfold effj_c07f, cwant; rewrite Eu; reflexivity).
+    unfold tus_new. destruct (max_subs <=? _); [discriminate|].
+    destruct (call f n) as [ok1 n1]. destruct (negb ok1); [discriminate|].
+    destruct (negb (is_joiner _)); [discriminate|].
+    destruct (if (_ : bool) then call f n1 else (true, n1)) as [ok2 n2]. destruct (negb ok2); [discriminate|].
+    match goal with |- context [mkPud ?wm ?gv 0 0 0 0] => set (wantm := wm); set (given := gv) end.
+    assert (forall c1, cwant c1 u = Some wantm -> cgiven c1 u = Some given ->
+      forall ch0, ch0 = (if nb || negb ((wantm =? 0)%N && (given =? 0)%N) then Some (wantm, given) else None) ->
+      match ch0 with Some (w, g) => cwant c1 u = Some w /\ cgiven c1 u = Some g | None => effj_c07f c1 u = effj_c07f c u end) as K.
+    { intros c1 W G ch0 ->. destruct (nb || negb ((wantm =? 0)%N && (given =? 0)%N)) eqn:EC; [split; assumption|].
+      apply orb_false_iff in EC. destruct EC as [_ EC]. apply negb_false_iff in EC. apply andb_prop in EC.
+      destruct EC as [E1 E2]. apply N.eqb_eq in E1, E2. unfold effj_c07f at 1. rewrite W, G, E1, E2, NU. reflexivity. }
+    destruct (negb (is_joiner wantm)).
+    + destruct (evict_user _ u false 0) as [c3 o3] eqn:EV. cbn [fst snd h_ca]. intros HS. inv HS. apply K; [| |reflexivity].
+      * rewrite (evict_cwant _ _ _ _ _ _ u EV), andb_false_r. unfold cwant. cbn [c_users c_set_users]. rewrite alookup_aset, N.eqb_refl. reflexivity.
+      * rewrite (evict_cgiven _ _ _ _ _ _ u EV), andb_false_r. unfold cgiven. cbn [c_users c_set_users]. rewrite alookup_aset, N.eqb_refl. reflexivity.
+    + cbn [fst snd h_ca]. intros HS. inv HS. apply K; [| |reflexivity].
+      * unfold cwant. cbn [c_users c_set_users]. rewrite alookup_aset, N.eqb_refl. reflexivity.
+      * unfold cgiven. cbn [c_users c_set_users]. rewrite alookup_aset, N.eqb_refl. reflexivity.
+Qed.
+
+Lemma effj_online_c07f c u z v : effj_c07f (c_set_users (aset u (p_set_online z (get_pud c u))) c) v = effj_c07f c v.
+Proof.
+  unfold effj_c07f, cwant, cgiven. cbn [c_users c_set_users]. rewrite alookup_aset.
+  destruct (N.eqb v u) eqn:E; [|reflexivity]. apply N.eqb_eq in E. subst v.
+  unfold get_pud. destruct (alookup u (c_users c)); reflexivity.
+Qed.
+
+(* the reply path of {sub}: thisUserSub, then the requester's session is attached when want & given has J *)
+Lemma sub_reply_losej_c07f f s c n sid u want bkg : losej_c07f c (h_ca (sub_reply f s c n sid u want bkg)).
+Proof.
+  unfold sub_reply. rewrite tus_eq.
+  set (nb := match alookup u (c_users c) with Some _ => false | None => true end).
+  pose proof (tus_losej_c07f f s c n u want nb) as L. pose proof (tus_ch_c07f f s c n u want nb) as CH.
+  destruct (tus f s c n u want nb) as [h r]. cbn [fst snd] in *.
+  destruct r as [code|ch]; cbn [h_ca]; [exact L|]. specialize (CH ch eq_refl).
+  destruct (match ch with Some (w, g) => is_joiner (N.land g w) | None => true end) eqn:EJ; [|exact L].
+  set (ca1 := c_set_sess (aset sid (u, bkg)) (h_ca h)).
+  assert (forall v, effj_c07f (if bkg then ca1 else c_set_users (aset u (p_set_online (p_online (get_pud ca1 u) + 1) (get_pud ca1 u))) ca1) v
+                    = effj_c07f (h_ca h) v) as EQ.
+  { intros v. destruct bkg; [reflexivity|]. rewrite effj_online_c07f. reflexivity. }
+  intros v A B. rewrite EQ in B. destruct (N.eq_dec v u) as [->|NE].
+  - exfalso. destruct ch as [[w g]|].
+    + destruct CH as [W G]. unfold effj_c07f in B. rewrite W, G, N.land_comm in B. congruence.
+    + congruence.
+  - pose proof (L v A B) as NS. intros sid0 b HI.
+    assert (In (sid0, (v, b)) (aset sid (u, bkg) (c_sess (h_ca h)))) as HA by (destruct bkg; exact HI).
+    apply in_aset in HA. destruct HA as [HA|HA]; [inv HA; congruence|]. exact (NS sid0 b HA).
+Qed.
+
 (* ---------- one request ---------- *)
 Section LoseJ.
 Variable dr : Z -> list (Z * Z) -> option (list (Z * Z)).
 Variable nr : list (Z * Z) -> list (Z * Z).
 Variable sm : sessmap.
 
-Definition not_sub_c07f (o : op) : bool := match o with OSub _ _ _ => false | _ => true end.
 
 Ltac keep_c07f := let E := fresh "E" in intros ? E; cbn [ca fst] in E; inv E; apply losej_refl_c07f.
 Ltac same_c07f L := let E := fresh "E" in intros ? E; cbn [ca fst h_ca] in E; inv E; apply losej_shrink_c07f; apply L.
 
 Lemma step_losej_c07f f x o c :
-  inv_sm x -> ca x = Some c -> not_sub_c07f o = true ->
+  inv_sm x -> ca x = Some c ->
   forall c', ca (fst (step dr nr sm f x o)) = Some c' -> losej_c07f c c'.
 Proof.
-  intros SM EC NS. unfold inv_sm in SM. rewrite EC in SM. unfold step. rewrite EC.
-  destruct o; try discriminate NS; cbn [fst].
+  intros SM EC. unfold inv_sm in SM. rewrite EC in SM. unfold step. rewrite EC.
+  destruct o; cbn [fst].
+  - (* sub *)
+    destruct (attached c sid); cbn [fst]; [keep_c07f|].
+    intros c' E. cbn [ca] in E. inv E. apply sub_reply_losej_c07f.
   - (* leave *)
     destruct (attached c sid); cbn [negb fst]; [|keep_c07f].
     destruct unsub; cbn [fst].
@@ -173,10 +267,10 @@ Qed.
 
 (* ... at every step of every history, every fault plan *)
 Lemma run_step_losej_c07f x h f o c c' :
-  inv_sm x -> ca (fst (run dr nr sm x h)) = Some c -> not_sub_c07f o = true ->
+  inv_sm x -> ca (fst (run dr nr sm x h)) = Some c ->
   ca (fst (step dr nr sm f (fst (run dr nr sm x h)) o)) = Some c' -> losej_c07f c c'.
 Proof.
-  intros SM EC NS E. apply (step_losej_c07f f (fst (run dr nr sm x h)) o c); auto.
+  intros SM EC E. apply (step_losej_c07f f (fst (run dr nr sm x h)) o c); auto.
   apply run_inv_sm. exact SM.
 Qed.
 End LoseJ.
@@ -184,9 +278,9 @@ End LoseJ.
 (* non-vacuity on the background-only example of TopicAclC07BanF.v: user 2 has J before the ban and not after *)
 Lemma bf_losej_example_c07f :
   let x3 := fst (run bf_dr_c07f bf_nr_c07f bf_sm_c07f bf_x_c07f bf_h_c07f) in
-  inv_sm bf_x_c07f /\ not_sub_c07f bf_ban_c07f = true /\
+  inv_sm bf_x_c07f /\
   exists c c', ca x3 = Some c /\ ca (fst (step bf_dr_c07f bf_nr_c07f bf_sm_c07f NoFault x3 bf_ban_c07f)) = Some c' /\
     effj_c07f c 2%N = true /\ effj_c07f c' 2%N = false.
 Proof.
-  cbv zeta. split; [exact I|]. split; [reflexivity|]. vm_compute. eexists. eexists. repeat split; reflexivity.
+  cbv zeta. split; [exact I|]. vm_compute. eexists. eexists. repeat split; reflexivity.
 Qed.
